@@ -615,8 +615,31 @@ fn generate_layout(rng: &mut Rng, thorough: bool) -> Workload {
     let mut hidden = Vec::new();
     if rng.chance(1, 4) {
         let kind = rng.range(1, 4) as u8;
+        // half of the time the hidden file shares its own name (last path component) with
+        // an include the program also has in the open, in another directory: a listing that
+        // merges what it found by anything coarser than the full resolved name loses one
+        let pool_name = ["hid.clinc", "sub/hid.clinc", "k.clib"][rng.below(3) as usize].to_string();
+        let namesake = if ninc > 0 && rng.chance(1, 2) {
+            let e = incs[rng.below(ninc as u64) as usize].name.clone();
+            let base = e.rsplit('/').next().unwrap_or(&e).to_string();
+            let cand = if e.contains('/') { base } else { format!("sub/{}", base) };
+            // no second spelling of a file the layout already has: the oracle's clause (c)
+            // tidies names lexically, which is only sound while `x/../n` and `n` are not both
+            // names of the pool (a directory `x` need not exist where only `n` has a copy)
+            if cand.is_empty()
+                || e.starts_with('.')
+                || e.contains("..")
+                || incs.iter().any(|i| tidy("", &i.name) == tidy("", &cand))
+            {
+                None
+            } else {
+                Some(cand)
+            }
+        } else {
+            None
+        };
         incs.push(Inc {
-            name: ["hid.clinc", "sub/hid.clinc", "k.clib"][rng.below(3) as usize].to_string(),
+            name: namesake.unwrap_or(pool_name),
             copies: gen_copies(rng, ndirs, false),
             refs: vec![],
         });
